@@ -19,3 +19,31 @@ MUTANTS = {
                                       "    return ebb_calc.move_dist_lt(rate_in, accel_in, time_ticks, int(accum_in) if accum_in != 'clear' else 0)")]),
     ],
 }
+
+S3 = "plotink/ebb3_serial.py"
+M3 = "plotink/ebb3_motion.py"
+MUTANTS["C04"] = [
+    ("record-error-overwrites", [(S3, "        if self.err is None:\n            self.err = message", "        self.err = message")]),
+    ("connect-clears-error", [(S3, "        self._get_port_name(given_name)\n        if self.port_name is None:\n            return False", "        self.err = None\n        self._get_port_name(given_name)\n        if self.port_name is None:\n            return False")]),
+    ("reboot-ignores-err", [(S3, "        if (self.port is None) or (self.err is not None):\n            return False\n        try:\n            self.port.write('RB", "        if self.port is None:\n            return False\n        try:\n            self.port.write('RB")]),
+    ("command-guard-ignores-err", [(S3, "        if (self.port is None) or (self.err is not None) or (cmd is None):\n            return False", "        if (self.port is None) or (cmd is None):\n            return False")]),
+    ("statusbyte-guard-port-only", [(S3, "        if (self.port is None) or (self.err is not None):\n            return None\n\n        response = ''\n        try:\n            self.port.write('QG", "        if self.port is None:\n            return None\n\n        response = ''\n        try:\n            self.port.write('QG")]),
+    ("bootload-guard-err-only", [(S3, "        if (self.port is None) or (self.err is not None):\n            return False\n        try:\n            self.port.write('BL", "        if self.err is not None:\n            return False\n        try:\n            self.port.write('BL")]),
+    ("var-read-int32-returns-zero", [(S3, "        if (self.port is None) or (self.err is not None):\n            return None\n\n        bytes_sequence = []", "        if (self.port is None) or (self.err is not None):\n            return 0\n\n        bytes_sequence = []")]),
+    ("timed-pause-writes-directly", [(M3, "            self.command(f'SM,{time_delay},0,0')\n            pause_time -= time_delay", "            if self.command(f'SM,{time_delay},0,0') is None:\n                return\n            pause_time -= time_delay\n            if pause_time > 0 and self.port is not None:\n                self.port.write(b'')")]),
+]
+
+MUTANTS["C05"] = [
+    ("retry-bound-5", [(S3, "            while len(response) == 0 and n_retry_count < 25:\n                # get new response to replace null response if necessary\n                response = self.port.readline().decode('ascii').strip()\n                n_retry_count += 1\n\n            if not response.startswith(cmd_name):",
+                        "            while len(response) == 0 and n_retry_count < 5:\n                # get new response to replace null response if necessary\n                response = self.port.readline().decode('ascii').strip()\n                n_retry_count += 1\n\n            if not response.startswith(cmd_name):")]),
+    ("query-retry-off-by-one", [(S3, "            while len(response) == 0 and n_retry_count < 25:\n                # get new response to replace null response if necessary\n                response = self.port.readline().decode('ascii').strip()\n                n_retry_count += 1\n\n        except (serial.SerialException, IOError, RuntimeError, OSError):\n            if qry_name",
+                                 "            while len(response) == 0 and n_retry_count < 24:\n                # get new response to replace null response if necessary\n                response = self.port.readline().decode('ascii').strip()\n                n_retry_count += 1\n\n        except (serial.SerialException, IOError, RuntimeError, OSError):\n            if qry_name")]),
+    ("startswith-to-in", [(S3, "        if ('Err:' in response) or (not response.startswith(qry_name)):", "        if ('Err:' in response) or (qry_name not in response):")]),
+    ("strip-comma-unconditionally", [(S3, "        if len(response) > header_len:      # Response is longer than the query length.\n            if response[header_len] == ',': # Check if character after query is a comma.\n                header_len += 1             # If so, strip it out of response too.", "        header_len += 1")]),
+    ("write-inside-retry-loop", [(S3, "                # get new response to replace null response if necessary\n                response = self.port.readline().decode('ascii').strip()\n                n_retry_count += 1\n\n            if not response.startswith(cmd_name):", "                # get new response to replace null response if necessary\n                self.port.write((cmd + '\\r').encode('ascii'))\n                response = self.port.readline().decode('ascii').strip()\n                n_retry_count += 1\n\n            if not response.startswith(cmd_name):")]),
+    ("drop-oserror-from-query-except", [(S3, "        except (serial.SerialException, IOError, RuntimeError, OSError):\n            if qry_name", "        except (serial.SerialException, RuntimeError):\n            if qry_name")]),
+    ("query-steps-tests-result-late", [(M3, "        result = self.query('QS') # Query global step position\n        if self.err:\n            return None\n", "        result = self.query('QS') # Query global step position\n")]),
+    ("two-letter-name-for-digit", [(S3, "        elif cmd[1] == ',':\n            cmd_name = cmd[0]       # Case of single-letter command with arguments.", "        elif cmd[1] == ',' or cmd[1].isdigit():\n            cmd_name = cmd[0]       # Case of single-letter command with arguments.")]),
+    ("dio-read-no-none-check", [(M3, "        response = self.query(f'PI,B,{pin}')\n        if response is None:\n            return None\n", "        response = self.query(f'PI,B,{pin}')\n")]),
+    ("command-no-cr-strip", [(S3, "        cmd = cmd.strip() # Remove leading, trailing whitespace, if any.", "        cmd = cmd.strip(' ') # Remove leading, trailing whitespace, if any.")]),
+]
